@@ -42,12 +42,29 @@ MANIFEST = {
 }
 BUDGET = {"quick": (150, 80), "thorough": (6000, 1500)}
 REQUIRED_PROBES = {"quick": ["wf_tile_fits_tan", "wf_study", "history_reuse", "history_override"],
-                   "thorough": ["wf_tile_fits_tan", "wf_tile_fits_toast", "wf_study", "wf_allsky", "wf_pipeline", "wf_cli_study", "history_reuse", "history_override", "scheme_LXY"]}
+                   "thorough": ["wf_tile_fits_tan", "wf_tile_fits_toast", "wf_study", "wf_allsky", "wf_pipeline", "wf_cli_study", "wf_cli_wwtl", "history_reuse", "history_override", "scheme_LXY"]}
 CHUNK = 3
 SELFTEST_EVERY = 30
 FRESH_SELFTEST = 3
 
 META = {"index_rel.wtml", "thumb.jpg", "properties"}
+
+WWTL_XML = """<?xml version='1.0' encoding='UTF-8'?>
+<LayerContainer ID="55cb0cce-c44a-4a44-a509-ea66fce643a5">
+  <Layers>
+    <Layer Id="7ecb6411-e4ee-4dfa-90ef-77d6f486c7d2" Type="TerraViewer.ImageSetLayer" Name="Verif Test" ReferenceFrame="Sky"
+           Color="NamedColor:White" Opacity="1" StartTime="1/1/0001 12:00:00 AM" EndTime="12/31/9999 11:59:59 PM"
+           FadeSpan="00:00:00" FadeType="None" Extension="@EXT@" OverrideDefault="False">
+      <ImageSet DataSetType="Sky" BandPass="Visible" Name="Verif Test" Projection="SkyImage" ReferenceFrame=""
+                CenterX="85.5" CenterY="-2.5" OffsetX="22.2" OffsetY="15.5" Rotation="-89.99" BaseDegreesPerTile="0.002"
+                QuadTreeMap="" Url="X:\\InternalPath@EXT@" DemUrl="" FileType="@EXT@" BaseTileLevel="0" TileLevels="0"
+                WidthFactor="1" MeanRadius="0" BottomsUp="False" Sparse="False" ElevationModel="False" StockSet="False" Generic="False">
+        <ThumbnailUrl />
+      </ImageSet>
+    </Layer>
+  </Layers>
+</LayerContainer>
+"""
 
 
 def parse_wtml(path):
@@ -161,7 +178,7 @@ PLACE_FIELDS = ["ra_hr", "dec_deg", "zoom_level", "name", "data_set_type"]
 def same(v1, v2):
     if isinstance(v1, (float, np.floating)) or isinstance(v2, (float, np.floating)):
         try:
-            return bool(np.isclose(float(v1), float(v2), rtol=1e-9, atol=1e-12))
+            return bool(np.isclose(float(v1), float(v2), rtol=1e-9, atol=1e-12, equal_nan=True))
         except (TypeError, ValueError):
             return False
     return v1 == v2
@@ -268,7 +285,7 @@ def run_one(ch, env):
     from toasty import TilingMethod
     from toasty.builder import Builder
 
-    wf = ("tile_fits_tan", "study", "tile_fits_tan", "allsky", "pipeline", "tile_fits_toast", "study", "cli_study")[ch.draw(8, kind="workflow")]
+    wf = ("tile_fits_tan", "study", "tile_fits_tan", "allsky", "pipeline", "tile_fits_toast", "study", "cli_study", "cli_wwtl")[ch.draw(9, kind="workflow")]
     workers = (1, 2, 3)[ch.draw(3, kind="workers")]
     d = env.fresh_dir()
     out = os.path.join(d, "out")
@@ -438,6 +455,38 @@ def run_one(ch, env):
             def call():
                 tcli.entrypoint(["tile-study", "--placeholder-thumbnail", "--outdir", out, src])
                 tcli.entrypoint(["cascade", "--start", str(lv), "-j", str(workers), out])
+
+            under_sim(call, label)
+            if not state["violation"] and not state["skip"]:
+                v = check_wtml_vs_tree(out, label, ref)
+                if v is not None:
+                    state["violation"] = viol(PROP, v[0], v[1])
+            res["nontrivial"] = lv >= 1
+        elif wf == "cli_wwtl":
+            # `toasty tile-wwtl`: a WWT layer file (XML + embedded jpg / png image) re-tiled as a study, then `toasty cascade`
+            import io
+            from PIL import Image as PILImage
+            from wwt_data_formats.filecabinet import FileCabinetWriter
+            from toasty import cli as tcli
+            ext = (".jpg", ".png")[ch.draw(2, kind="wwtl_image_format")]
+            arr = study_image(ch, "rgb")
+            buf = io.BytesIO()
+            PILImage.fromarray(arr).save(buf, format="JPEG" if ext == ".jpg" else "PNG", quality=95)
+            decoded = np.asarray(PILImage.open(io.BytesIO(buf.getvalue())).convert("RGB"))
+            lv, ref = study_tiles(decoded)
+            fw = FileCabinetWriter()
+            fw.add_file_with_data("55cb0cce-c44a-4a44-a509-ea66fce643a5.wwtxml", WWTL_XML.replace("@EXT@", ext).encode("utf-8"))
+            fw.add_file_with_data("55cb0cce-c44a-4a44-a509-ea66fce643a5\\7ecb6411-e4ee-4dfa-90ef-77d6f486c7d2" + ext, buf.getvalue())
+            src = os.path.join(d, "image.wwtl")
+            with open(src, "wb") as f:
+                fw.emit(f)
+            res["config"].update(shape=list(arr.shape), tile_levels=lv, embedded=ext)
+            label = "toasty tile-wwtl + cascade CLI (%s image %dx%d, %d workers)" % (ext, arr.shape[1], arr.shape[0], workers)
+
+            def call():
+                tcli.entrypoint(["tile-wwtl", "--placeholder-thumbnail", "--outdir", out, src])
+                if lv >= 1:
+                    tcli.entrypoint(["cascade", "--start", str(lv), "-j", str(workers), out])
 
             under_sim(call, label)
             if not state["violation"] and not state["skip"]:
